@@ -236,6 +236,34 @@ theorem rmR64_noninterference (hh : HasHooks) (i : Instr) (s1 s2 : Machine) (d s
     · simp only [hnw, if_false, Bool.false_eq_true, and_true]
       exact ⟨hrip, hx, hg⟩
 
+/-- the same for the mirror family `op r64, r/m64` (also MOV r64, r/m64 and CMOVcc) on register operands -/
+theorem rRm64_noninterference (hh : HasHooks) (i : Instr) (s1 s2 : Machine) (d sr : Fin 16) (df : Bool) (op : Op2) (set clear : BitVec 64)
+    (hrow : lookup i.code = some (.rRm 64 64 df op set clear))
+    (hops : instructionOperands2 i = .ok (.register (.g64 d), .register (.g64 sr)))
+    (U : Fin 16 → Prop) (hA : AgreeOff U s1.regs s2.regs) (hd : ¬ U d) (hs : ¬ U sr) (hfl : s1.rflags = s2.rflags) :
+    (match exec hh i s1, exec hh i s2 with
+     | .ok a, .ok b => AgreeOff U a.regs b.regs ∧ a.rflags = b.rflags
+     | .err, .err => True
+     | .panic, .panic => True
+     | _, _ => False) := by
+  obtain ⟨hrip, hx, hg⟩ := hA
+  rw [C01.exec_rRm64_regs hh i s1 d sr df op set clear hrow hops, C01.exec_rRm64_regs hh i s2 d sr df op set clear hrow hops]
+  rw [hg d hd, hg sr hs, hfl]
+  cases setFlags (set ||| (applyOp2 op (s2.rflags &&& FLAG_CF != 0) 64 64 (s2.regs.get d) (s2.regs.get sr)).2) clear
+      ((applyOp2 op (s2.rflags &&& FLAG_CF != 0) 64 64 (s2.regs.get d) (s2.regs.get sr)).1.setWidth 64) s2.rflags with
+  | err => trivial
+  | panic => trivial
+  | ok f =>
+    by_cases hnw : (set &&& NO_WRITEBACK == 0) = true
+    · simp only [hnw, if_true, and_true]
+      refine ⟨by simpa using hrip, by simpa using hx, ?_⟩
+      intro j hj
+      by_cases hdj : d = j
+      · subst hdj; simp
+      · simp [Regs.get_set_ne _ _ _ _ hdj, hg j hj]
+    · simp only [hnw, if_false, Bool.false_eq_true, and_true]
+      exact ⟨hrip, hx, hg⟩
+
 /-! ## Non-vacuity -/
 example : AgreeOff (fun j => j = 3) (Regs.zero.set 3 5#64) (Regs.zero.set 3 9#64) := by
   refine ⟨rfl, rfl, ?_⟩
